@@ -395,7 +395,16 @@ func runOne(falco, vclPath string, r rendered, b behaviour) (*observation, error
 			break
 		}
 	}
+	// breakpoints are kept per source: requests about ANOTHER file (one breakpoint set before, cleared afterwards) must not
+	// disturb the ones of the program
+	otherPath := filepath.Join(filepath.Dir(vclPath), "other.vcl")
+	if _, err := waitResp(c.send("setBreakpoints", map[string]any{"source": map[string]any{"path": otherPath}, "breakpoints": []map[string]any{{"line": 3}}})); err != nil {
+		return nil, err
+	}
 	sr, err := waitResp(c.send("setBreakpoints", map[string]any{"source": map[string]any{"path": vclPath}, "breakpoints": bl}))
+	if err == nil {
+		_, err = waitResp(c.send("setBreakpoints", map[string]any{"source": map[string]any{"path": otherPath}, "breakpoints": []map[string]any{}}))
+	}
 	if err != nil {
 		return nil, err
 	}
@@ -515,6 +524,19 @@ func runOne(falco, vclPath string, r rendered, b behaviour) (*observation, error
 		if len(lines) > 0 {
 			o.Line = lines[0]
 			o.N = r.idOf[lines[0]]
+		}
+		// a client that asks for one frame only (levels = 1, what editors do on every stop) must get the newest one
+		if st1, err := waitResp(c.send("stackTrace", map[string]any{"threadId": 1, "startFrame": 0, "levels": 1})); err == nil {
+			if body, ok := st1["body"].(map[string]any); ok {
+				if fr, ok := body["stackFrames"].([]any); ok && len(fr) > 0 {
+					if fm, ok := fr[0].(map[string]any); ok && len(lines) > 0 && num(fm["line"]) != lines[0] {
+						o.Line = -num(fm["line"]) // reported as a stop at a line that is no statement: a mismatch
+						o.N = -1
+					}
+				}
+			}
+		} else {
+			return err
 		}
 		obs.FrameLines = append(obs.FrameLines, lines)
 		obs.Stops = append(obs.Stops, o)
